@@ -5,6 +5,7 @@ import (
 	"encoding/binary"
 	"encoding/json"
 	"fmt"
+	"math"
 
 	"berty.tech/go-ipfs-log/entry"
 	"berty.tech/go-orbit-db/iface"
@@ -46,6 +47,11 @@ func SaveSnapshot(ctx context.Context, b iface.Store) (cid.Cid, error) {
 
 	headerSize := len(header)
 
+	// lengths are written on 16 bits: refuse what cannot be read back
+	if headerSize > math.MaxUint16 {
+		return cid.Cid{}, fmt.Errorf("unable to snapshot: header of %d bytes exceeds the %d bytes a snapshot record can hold", headerSize, math.MaxUint16)
+	}
+
 	size := make([]byte, 2)
 	binary.BigEndian.PutUint16(size, uint16(headerSize))
 	rs := append(size, header...)
@@ -55,6 +61,10 @@ func SaveSnapshot(ctx context.Context, b iface.Store) (cid.Cid, error) {
 
 		if err != nil {
 			return cid.Cid{}, fmt.Errorf("unable to serialize entry as JSON: %w", err)
+		}
+
+		if len(entryJSON) > math.MaxUint16 {
+			return cid.Cid{}, fmt.Errorf("unable to snapshot: entry of %d bytes exceeds the %d bytes a snapshot record can hold", len(entryJSON), math.MaxUint16)
 		}
 
 		size := make([]byte, 2)
